@@ -13,6 +13,7 @@ pub mod c05;
 pub mod c06;
 pub mod c07;
 pub mod cmdtable;
+pub mod c14;
 pub mod c15;
 pub mod c16;
 pub mod c17;
@@ -32,6 +33,7 @@ pub fn parent_main(prop: &str, tier: &str) -> i32 {
         "C15" => c15::parent(tier),
         "C05" => c05::parent(tier),
         "C17" => c17::parent(tier),
+        "C14" => c14::parent(tier),
         "C07" => c07::parent(tier),
         "C19" => c19::parent(tier),
         "C06" => c06::parent(tier),
@@ -73,6 +75,10 @@ pub fn worker_main(prop: &str, tier: &str, _slot: usize) {
         }
         "C07" => {
             let mut h = c07::handle_factory();
+            pool::worker_loop(|t, io| h(tier, t, io))
+        }
+        "C14" => {
+            let mut h = c14::handle_factory();
             pool::worker_loop(|t, io| h(tier, t, io))
         }
         "C17" => {
